@@ -737,6 +737,13 @@ impl<'ast> LoweringContext<'ast> {
                         "Traits are not supported by this backend".into(),
                     ));
                 }
+                // Struct fields are lowered in the `Everywhere` position, which cannot hold traits
+                if in_struct || !matches!(P::IN_OUT_STATUS, super::InputOrOutput::Input) {
+                    self.errors.push(LoweringError::Other(
+                        "Traits currently unsupported in structs".into(),
+                    ));
+                    return Err(());
+                }
                 let trt = path.resolve_trait(in_path, self.env);
                 let tcx_id = self
                     .lookup_id
